@@ -126,6 +126,24 @@ type replayFile struct {
 	Case     json.RawMessage `json:"case"`
 }
 
+// ReplayFile re-executes one recorded case (used by `go test -run TestReplay` with VERIF_REPLAY=<file>).
+func ReplayFile(path string) (msg string, violates bool, err error) {
+	b, err := os.ReadFile(path)
+	if err != nil {
+		return "", false, err
+	}
+	var rf replayFile
+	if err := json.Unmarshal(b, &rf); err != nil {
+		return "", false, err
+	}
+	p := registry[rf.Property]
+	if p == nil || p.Replay == nil {
+		return "", false, fmt.Errorf("no replay for %s", rf.Property)
+	}
+	msg, violates = p.Replay(rf.Sub, rf.Case)
+	return msg, violates, nil
+}
+
 func replay(args []string) int {
 	if len(args) < 1 {
 		fmt.Fprintln(os.Stderr, "usage: vdriver replay <file>")
